@@ -41,6 +41,43 @@ type Case struct {
 	BPreN int    `json:"bpre,omitempty"`
 	AHow  string `json:"ahow,omitempty"`
 	BHow  string `json:"bhow,omitempty"`
+	// provenance: the operand is not the constructed set itself but a set DERIVED from
+	// it with the same members — "select" (Select of everything), "map" (identity
+	// Map), "union" (union with an empty set), "json" (loaded from its own ToJSON)
+	AVia string `json:"avia,omitempty"`
+	BVia string `json:"bvia,omitempty"`
+}
+
+// derive returns a set with the same members (and comparator) obtained another way.
+func derive[S algebra[S]](s S, mk func() S, how string) S {
+	switch how {
+	case "union":
+		return s.Union(mk())
+	case "json":
+		if j, ok := any(s).(interface {
+			ToJSON() ([]byte, error)
+		}); ok {
+			if doc, err := j.ToJSON(); err == nil {
+				t := mk()
+				if l, ok := any(t).(interface{ FromJSON([]byte) error }); ok && l.FromJSON(doc) == nil {
+					return t
+				}
+			}
+		}
+	case "select":
+		if e, ok := any(s).(interface {
+			Select(func(int, int) bool) S
+		}); ok {
+			return e.Select(func(int, int) bool { return true })
+		}
+	case "map":
+		if e, ok := any(s).(interface {
+			Map(func(int, int) int) S
+		}); ok {
+			return e.Map(func(_ int, v int) int { return v })
+		}
+	}
+	return s
 }
 
 // past fills the set with n throw-away elements and empties it again.
@@ -108,6 +145,7 @@ func run[S algebra[S]](c Case, mk func() S, ordered bool) (pbt.Info, error) {
 		a.Add(c.A...)
 		a.Remove(c.ARem...)
 	}
+	a = derive(a, mk, c.AVia)
 	b := a
 	if !c.Same {
 		b = mk()
@@ -116,6 +154,7 @@ func run[S algebra[S]](c Case, mk func() S, ordered bool) (pbt.Info, error) {
 			b.Add(c.B...)
 			b.Remove(c.BRem...)
 		}
+		b = derive(b, mk, c.BVia)
 	}
 	cl := func(x int) int { return class(c.Cmp, x) }
 	ma, mb := map[int]bool{}, map[int]bool{}
@@ -351,10 +390,10 @@ func gen(kind string) func(t *rapid.T) Case {
 		hi, maxA, maxB := 9, 8, 8
 		if rapid.IntRange(0, 9).Draw(t, "large") == 0 {
 			// operands of dozens of elements, often of very different sizes
-			hi = 90
+			hi = pbt.Size(90)
 			c.Hi = hi
-			maxA = []int{80, 80, 6}[rapid.IntRange(0, 2).Draw(t, "sizeA")]
-			maxB = []int{80, 6, 80}[rapid.IntRange(0, 2).Draw(t, "sizeB")]
+			maxA = []int{pbt.Size(80), pbt.Size(80), 6}[rapid.IntRange(0, 2).Draw(t, "sizeA")]
+			maxB = []int{pbt.Size(80), 6, pbt.Size(80)}[rapid.IntRange(0, 2).Draw(t, "sizeB")]
 		}
 		vals := func(label string, maxN int) []int {
 			minN := 0
@@ -386,6 +425,11 @@ func gen(kind string) func(t *rapid.T) Case {
 					c.B, c.BRem = nil, nil
 				}
 			}
+		}
+		vias := []string{"", "", "", "", "select", "map", "union", "json"}
+		c.AVia = vias[rapid.IntRange(0, len(vias)-1).Draw(t, "avia")]
+		if !c.Same {
+			c.BVia = vias[rapid.IntRange(0, len(vias)-1).Draw(t, "bvia")]
 		}
 		n := rapid.IntRange(0, 6).Draw(t, "nmut")
 		for i := 0; i < n; i++ {
